@@ -413,7 +413,7 @@ func c12Computed(env *core.Env) {
 	}
 	forms := []string{"%x.abs()", "%x.ceiling()", "%x.floor()", "%x.round()", "%x.truncate()", "%x.sqrt()", "%x.power(1)", "%x.exp()", "-%x", "-(-%x)", "%x + 0", "%x * 1", "%x - 0", "%x / 1", "%x div 1", "%x mod 7",
 		"%x.toInteger()", "%x.toDecimal()", "%x.toString()", "%x.toQuantity()", "%x.toBoolean()", "%x & ''", "%x + ''", "%x.upper()", "%x.lower()", "%x.substring(0)", "%x.replace('zz', 'y')", "%x.toChars()", "%x.length()", "%x.not()", "%x.not().not()", "%x and true", "%x or false",
-		"%x.convertsToInteger()", "iif(true, %x).abs()", "%x.select($this.abs())", "(%x | %x).abs()", "%x.abs().abs()"}
+		"%x.convertsToInteger()", "%x.value", "iif(true, %x).abs()", "%x.select($this.abs())", "(%x | %x).abs()", "%x.abs().abs()"}
 	specs := []string{"Integer", "System.Integer", "Decimal", "System.Decimal", "Quantity", "System.Quantity", "FHIR.Quantity", "String", "System.String", "Boolean", "System.Boolean", "integer", "FHIR.integer", "decimal", "string", "code", "boolean", "positiveInt", "unsignedInt", "Element", "FHIR.Element"}
 	for _, pr := range pairs {
 		xe := evalopts.EnvVariable("x", pr.elem)
@@ -428,11 +428,20 @@ func c12Computed(env *core.Env) {
 			}
 			env.Cover("computed-from-element")
 			fs := strings.ReplaceAll(f, "%x", "x")
+			if _, isElem := base.Raw[0].(proto.Message); isElem && f == "%x.value" {
+				continue // the value of a complex element (Quantity.value) is an element: navigation, not computation
+			}
 			if _, isElem := base.Raw[0].(proto.Message); isElem {
 				env.Violatef("C12/computed-value/is-an-element/"+fs, "`%s` with %%x = FHIR %s yields the %T itself, not a System value", f, pr.name, base.Raw[0])
 				continue
 			}
 			declared := model.TypeRef{NS: "System", Name: fx.Render(base.Raw[0]).K}
+			// the primitive's own value is the System value of the element's type (decimal -> Decimal, code -> String, ...)
+			if f == "%x.value" || f == "%x.value.value" {
+				if want := fx.Render(pr.sys); declared.Name != want.K {
+					env.Violatef("C12/computed-value/value-of-primitive/wrong-type", "`%s` with %%x = FHIR %s is a System.%s (%s), expected a System.%s", f, pr.name, declared.Name, trunc(base.Short(), 60), want.K)
+				}
+			}
 			for _, sp := range specs {
 				target, ok := model.ResolveSpecifier(sp)
 				if !ok {
